@@ -3,7 +3,27 @@ From Coq Require Import List Arith Lia Bool.
 From LF Require Import Conc Kernel KernelInv.
 
 Lemma pres_write_saving n s t f s' : KInv n s -> t < n -> kstep s (LWrite t f FSaving) = Some s' -> KInv n s'.
-Proof. intros I Ht H. start H s'. Time all: kinv_dbg n s I. Show. Abort.
+Proof. intros I Ht H. start H s'; kinv n s I. Qed.
 
 Lemma pres_write_done n s t f s' : KInv n s -> t < n -> kstep s (LWrite t f FDone) = Some s' -> KInv n s'.
-Proof. intros I Ht H. start H s'. Time all: kinv_dbg n s I. Show. Abort.
+Proof. intros I Ht H. start H s'; kinv n s I. Qed.
+
+Lemma pres_write_wait n s t f s' : KInv n s -> t < n -> kstep s (LWrite t f FWait) = Some s' -> KInv n s'.
+Proof. intros I Ht H. start H s'; kinv n s I. Qed.
+
+Lemma pres_write_ready n s t f s' : KInv n s -> t < n -> kstep s (LWrite t f FReady) = Some s' -> KInv n s'.
+Proof. intros I Ht H. start H s'; kinv n s I. Qed.
+
+Lemma pres_write_run n s t f s' : KInv n s -> t < n -> kstep s (LWrite t f FRun) = Some s' -> KInv n s'.
+Proof. intros I Ht H. start H s'; kinv n s I. Qed.
+
+Lemma pres_write n s t f v s' : KInv n s -> t < n -> kstep s (LWrite t f v) = Some s' -> KInv n s'.
+Proof.
+  intros I Ht H. destruct v.
+  - cbn [kstep] in H. discriminate.
+  - eapply pres_write_run; eauto.
+  - eapply pres_write_ready; eauto.
+  - eapply pres_write_wait; eauto.
+  - eapply pres_write_done; eauto.
+  - eapply pres_write_saving; eauto.
+Qed.
